@@ -75,3 +75,6 @@ func vfLimReplayHas(jti string) bool {
 
 // vfLimPreCheck runs the pre-verification step that consults the limiter.
 func vfLimPreCheck(t *TraefikOidc, token string) error { return t.performPreVerificationChecks(token) }
+
+// vfLimPreChecks runs what VerifyToken runs before any parsing or signature work
+func vfLimPreChecks(t *TraefikOidc, token string) error { return t.performPreVerificationChecks(token) }
